@@ -54,6 +54,8 @@ package tensor
 //@ func storage.CopyIter
 //@   trusted
 //@   params t dst src diter siter
+//@   requires [range_dst] forall p :: 0 <= p && p < it_len(diter) ==> 0 <= it_seq(diter, p) && it_seq(diter, p) < len(dst.Raw) / rsize(t)
+//@   requires [range_src] forall p :: 0 <= p && p < it_len(siter) ==> 0 <= it_seq(siter, p) && it_seq(siter, p) < len(src.Raw) / rsize(t)
 //@   ensures [by_position] gh("rawcopy", dst) == 0
 //@   ensures [consumed] gh("it_pos", diter) >= old(gh("it_pos", diter)) && gh("it_pos", siter) >= old(gh("it_pos", siter)) && (gh("it_pos", diter) >= it_len(diter) || gh("it_pos", siter) >= it_len(siter))
 //@   assigns whole(dst.Raw), gh("rawcopy", dst), gh("it_pos", diter), gh("it_pos", siter)
@@ -61,6 +63,7 @@ package tensor
 //@ func tensor.FlatIteratorFromDense
 //@   trusted
 //@   ensures [some] !isnil(result) && fresh(result) && gh("it_pos", result) == 0
+//@   ensures [in_range] typeis(tt, "*tensor.Dense") ==> (forall p :: 0 <= p && p < it_len(result) ==> 0 <= it_seq(result, p) && it_seq(result, p) < len(asptr("tensor.Dense", tt).Raw) / rsize(asptr("tensor.Dense", tt).t))
 //@   assigns nothing
 
 //@ func tensor.copyDenseIter
@@ -69,6 +72,8 @@ package tensor
 //@   config panics allowed
 //@   requires [dyn] typeis(dst, "*tensor.Dense") && typeis(src, "*tensor.Dense")
 //@   requires [no_mask_yet] cap(asptr("tensor.Dense", dst).mask) == 0
+//@   requires [range_diter] !isnil(diter) ==> (forall p :: 0 <= p && p < it_len(diter) ==> 0 <= it_seq(diter, p) && it_seq(diter, p) < len(asptr("tensor.Dense", dst).Raw) / rsize(asptr("tensor.Dense", dst).t))
+//@   requires [range_siter] !isnil(siter) ==> (forall p :: 0 <= p && p < it_len(siter) ==> 0 <= it_seq(siter, p) && it_seq(siter, p) < len(asptr("tensor.Dense", src).Raw) / rsize(asptr("tensor.Dense", src).t))
 //@   ensures [raw_only_when_flat] result1 == nil && gh("rawcopy", asptr("tensor.Dense", dst)) == 1 ==> old(flatOK(asptr("tensor.Dense", dst)) && flatOK(asptr("tensor.Dense", src)) && sameOrder(asptr("tensor.Dense", dst), asptr("tensor.Dense", src)))
 //@   ensures [mode_known] result1 == nil ==> gh("rawcopy", asptr("tensor.Dense", dst)) == 0 || gh("rawcopy", asptr("tensor.Dense", dst)) == 1
 //@   ensures [source] asptr("tensor.Dense", src).Raw == old(asptr("tensor.Dense", src).Raw)
